@@ -21,7 +21,7 @@ def arm_none_all(rel, src, variant):
     bypass   - True when the arm starts with `if !matches!(operation, Some(CompareOp::Eq)) { all zones }`
                (the pruner is not consulted for an operator other than `=`);
     ops      - the operators listed in `else if matches!(operation, ...) { all zones }` after the pruner
-               answered None;
+               answered None (["*"] for `else if !matches!(operation, Some(CompareOp::Eq))`: every operator but =);
     fallback - what the final else does with a None: 'empty' (return Vec::new()), 'all', or 'inflight'
                (all zones only while the segment is in flight, else none)."""
     m = need(rel, src, r"IndexStrategy::" + variant + r"[^=]*=>\s*\{(.*?)\n                \}", f"arm {variant}")
@@ -43,6 +43,12 @@ def arm_none_all(rel, src, variant):
         if not ops:
             raise Missing(f"{rel}: arm {variant}: operator list of the None fallback not understood")
         rest = mo.group(2)
+    mn = re.match(r"if !matches!\(operation, Some\(CompareOp::Eq\)\) \{\s*" + allz + r"\s*\} else (.*)$", rest, re.S)
+    if mn:
+        if ops:
+            raise Missing(f"{rel}: arm {variant}: two operator fallbacks after a None")
+        ops = ["*"]          # every operator other than `=`
+        rest = mn.group(1)
     if "is_segment_inflight" in rest:
         tail = rest.split("} else {")[-1]
         if "return Vec::new()" in tail and "collect_zones_for_scope" in rest.split("} else {")[0]:
@@ -167,8 +173,9 @@ def gen(out):
         bypass, ops, k = arm_none_all(rel, src, variant)
         out.append(f"Definition {coq}_none : N := {code[k]}%N. (* 0 = no zones, 1 = all zones, 2 = all zones only while in flight *)")
         out.append(f"Definition {coq}_noneq_bypass : bool := {'true' if bypass else 'false'}. (* operator other than = : all zones, pruner not consulted *)")
+        out.append(f"Definition {coq}_none_noneq_all : bool := {'true' if '*' in ops else 'false'}. (* pruner said None and the operator is not = : all zones *)")
         for o in ops:
-            if o not in ("Neq", "In"):
+            if o not in ("Neq", "In", "*"):
                 raise Missing(f"{rel}: arm {variant}: None fallback for operator {o} is not modelled")
         out.append(f"Definition {coq}_none_neq_all : bool := {'true' if 'Neq' in ops else 'false'}. (* pruner said None and the operator is != : all zones *)")
         out.append(f"Definition {coq}_none_in_all : bool := {'true' if 'In' in ops else 'false'}.")
